@@ -687,6 +687,18 @@ def target_stored(case, rec, nominal):
 
 
 def check_case(case, rec):
+    try:
+        return _check_case(case, rec)
+    except ValueError as e:
+        # the Chebyshev geometry raises outside |x/norm| <= 1 (its documented precondition, not a tolerancing matter): a
+        # perturbed or compensated trial - or this check's own replay of one - sent a ray outside that square
+        if 'Chebyshev input coordinates' in str(e):
+            rec.cls('chebyshev-out-of-norm-skipped')
+            return
+        raise
+
+
+def _check_case(case, rec):
     case = resolve_targets(case)
     mode, family = case['mode'], case['family']
     spec = case['spec']
